@@ -153,6 +153,32 @@ theorem scanDir_of_unverified {ns : Bool} {bd : Path} {last : Name} {nlev : Nat}
   · exact Or.inl (Or.inl ⟨hp, hf⟩)
   · exact Or.inr ⟨hp, hf⟩
 
+/-- **`_find_module` returns the first candidate in its fixed order** — stub-only package, package `__init__.pyi`,
+    package `__init__.py`, module `.pyi`, module `.py`: everything before the file it returns does not exist
+    (for a verified candidate directory and a last component other than `__init__`). -/
+theorem scanDir_found_first {ns : Bool} {bd : Path} {last : Name} {nlev : Nat} {g : Path} (hl : last ≠ sInit)
+    (h : scanDir fs ns bd last nlev = .found g) :
+    ∃ pre post, pkgFiles bd last ++ modFiles bd last = pre ++ g :: post ∧ ∀ p ∈ pre, fs.isFile p = false := by
+  unfold scanDir at h
+  split at h
+  · next c hc =>
+    simp only [Scan.found.injEq] at h
+    subst h
+    obtain ⟨hpred, as, bs, heq, hnot⟩ := List.find?_eq_some_iff_append.mp hc
+    have hmap : (scanCands bd last).map (·.1) = pkgFiles bd last ++ modFiles bd last := by
+      simp [scanCands, List.map_map, Function.comp_def]
+    refine ⟨as.map (·.1), bs.map (·.1), ?_, ?_⟩
+    · rw [← hmap, heq]; simp
+    · intro p hp
+      rw [List.mem_map] at hp
+      obtain ⟨a, ha, rfl⟩ := hp
+      have := hnot a ha
+      have hv : verifyFrom fs bd.reverse nlev = true := by
+        simp only [Bool.and_eq_true, verifyAt_of_ne fs hl] at hpred
+        exact hpred.2
+      simpa [verifyAt_of_ne fs hl, hv] using this
+  · cases h
+
 /-! ### findLoop -/
 
 /-- the near misses contributed by a list of candidate directories (when none of them has a verified hit) -/
